@@ -46,12 +46,27 @@ func (s *Session) ExecQuery(q string) error {
 		fmt.Printf("created database %s\n\r", stmt.Name)
 		return nil
 	case sql.UseStatement:
-		var err error
-		s.CurDB = stmt.DBName
-		s.RelationService, err = storage.OpenRelation(stmt.DBName, true)
+		// close the store of the previously selected database first: its
+		// unflushed pages must reach the file before anything reopens it
+		if s.RelationService != nil {
+			if err := s.RelationService.Close(); err != nil {
+				return err
+			}
+			s.RelationService = nil
+		}
+		rs, err := storage.OpenRelation(stmt.DBName, true)
 		if err != nil {
+			// keep the session usable: stay on the previous database
+			if s.CurDB != "" {
+				var reopenErr error
+				if s.RelationService, reopenErr = storage.OpenRelation(s.CurDB, true); reopenErr != nil {
+					s.CurDB = ""
+				}
+			}
 			return err
 		}
+		s.CurDB = stmt.DBName
+		s.RelationService = rs
 		fmt.Printf("selected database %s\n\r", stmt.DBName)
 		return nil
 	case sql.ShowDatabase:
